@@ -271,7 +271,7 @@ func cmdCheck(args []string) {
 	report := func(o *Obl, why string) {
 		// known finding?
 		for _, k := range known.Findings {
-			if k.Kind == "finding" && k.Property == *prop && k.Obligation == o.Name {
+			if k.Kind == "finding" && k.Property == *prop && lockName(k.Obligation) == lockName(o.Name) {
 				fmt.Printf("KNOWN-FINDING: property=%s %s (obligation %s)\n", *prop, k.What, o.Name)
 				knownHits = append(knownHits, o.Name)
 				return
